@@ -131,7 +131,7 @@ def plain (txt : String) : Bool := !(pyStartsWith txt "-") && !(pyStartsWith txt
 theorem defaultOf_spec (fid : String) :
     (∀ v, defaultOf fid (.int v) = (.int v, false, [])) ∧
     (∀ r, defaultOf fid (.float r) = (.float r, false, [])) ∧
-    (∀ v, defaultOf fid (.str v) = (.str ("\"" ++ v ++ "\""), false, [])) ∧
+    (∀ v, defaultOf fid (.str v) = (.str (escapeStringLiteral v), false, [])) ∧
     (∀ fq b tn tq, defaultOf fid (.name "None" fq b tn tq) = (.none, true, [])) ∧
     (∀ fq b tn tq, defaultOf fid (.name "True" fq b tn tq) = (.bool true, false, [])) ∧
     (∀ fq b tn tq, defaultOf fid (.name "False" fq b tn tq) = (.bool false, false, [])) ∧
